@@ -51,6 +51,17 @@ func (flags FrameFlags) Del(f FrameFlags) FrameFlags {
 	return flags ^ f
 }
 
+// with returns flags with f set or cleared. Serialize uses it for the flags a
+// frame body decides: what goes out is what the body says now, not what an
+// earlier write (or a parse) left in the header.
+func (flags FrameFlags) with(f FrameFlags, on bool) FrameFlags {
+	if on {
+		return flags | f
+	}
+
+	return flags &^ f
+}
+
 type Frame interface {
 	Type() FrameType
 	Reset()
